@@ -63,11 +63,18 @@ pub struct WordField {
 
 impl WordField {
     pub fn shifted(&self, by: usize) -> WordField {
-        WordField { off: self.off + by, ..*self }
+        WordField {
+            off: self.off + by,
+            ..*self
+        }
     }
     /// the same field in the hex text of the buffer; `at`: character offset of the hex text
     pub fn in_hex(&self, at: usize) -> WordField {
-        WordField { off: at + 2 * self.off, hex: true, ..*self }
+        WordField {
+            off: at + 2 * self.off,
+            hex: true,
+            ..*self
+        }
     }
 }
 
@@ -81,7 +88,11 @@ const ADDED_CONSTANTS: [u64; 4] = [8, 16, 56, 64];
 /// `offset + n` and `offset + constant` change behaviour. Sorted, unique, finite (< 1000).
 pub fn boundary_values(width: usize) -> Vec<u64> {
     let bits = (width * 8).min(64) as u32;
-    let max: u64 = if bits == 64 { u64::MAX } else { (1u64 << bits) - 1 };
+    let max: u64 = if bits == 64 {
+        u64::MAX
+    } else {
+        (1u64 << bits) - 1
+    };
     let mut v: Vec<u64> = vec![0, 1];
     for k in [7u32, 8, 15, 16, 31, 32, 60, 61, 62, 63] {
         if k < bits {
@@ -127,7 +138,10 @@ impl Fault {
             Fault::DupTail { .. } => "tail_duplication",
             Fault::Splice { .. } => "splice",
             Fault::Concat { .. } => "concatenation",
-            Fault::Word { enc: WordEnc::Be | WordEnc::Le, .. } => "word_overwrite",
+            Fault::Word {
+                enc: WordEnc::Be | WordEnc::Le,
+                ..
+            } => "word_overwrite",
             Fault::Word { .. } => "word_overwrite_header_rewrite",
         }
     }
@@ -205,7 +219,13 @@ pub fn apply(
                 }
                 _ => false,
             },
-            Fault::Word { off, width, val, enc, hex } => write_word(&mut b, *off, *width, *val, *enc, *hex),
+            Fault::Word {
+                off,
+                width,
+                val,
+                enc,
+                hex,
+            } => write_word(&mut b, *off, *width, *val, *enc, *hex),
         };
         if ok {
             fired.push(f.kind());
@@ -265,7 +285,10 @@ fn write_word(b: &mut [u8], off: usize, width: usize, val: u64, enc: WordEnc, he
     let mut changed = false;
     for (i, byte) in image.iter().enumerate() {
         if hex {
-            let text = [b"0123456789abcdef"[(byte >> 4) as usize], b"0123456789abcdef"[(byte & 15) as usize]];
+            let text = [
+                b"0123456789abcdef"[(byte >> 4) as usize],
+                b"0123456789abcdef"[(byte & 15) as usize],
+            ];
             if b[off + 2 * i..off + 2 * i + 2] != text {
                 b[off + 2 * i..off + 2 * i + 2].copy_from_slice(&text);
                 changed = true;
@@ -297,7 +320,14 @@ mod tests {
     #[test]
     fn word_in_hex() {
         let mut b = b"0000000000000003ff".to_vec();
-        assert!(write_word(&mut b, 0, 8, 0x1fff_ffff_ffff_fff8, WordEnc::Be, true));
+        assert!(write_word(
+            &mut b,
+            0,
+            8,
+            0x1fff_ffff_ffff_fff8,
+            WordEnc::Be,
+            true
+        ));
         assert_eq!(&b, b"1ffffffffffffff8ff");
     }
 }
